@@ -97,8 +97,10 @@ where
                     // We need to be able to read at least fixed header and one byte of size to proceed.
                     if *size >= 2 {
                         *state = PacketStreamState::ReadPacketLen;
-                        return self.poll_next(cx);
                     }
+
+                    // The reader was ready, so nobody is going to wake us: keep reading.
+                    return self.poll_next(cx);
                 }
 
                 Poll::Pending
